@@ -71,6 +71,96 @@ def list_tag(ctx):
               'Op::dot returns %s' % {k: [fmt(x, 3) for x in v] for k, v in res.items()})
 
 
+def _id_cmp_zip_form(ctx, facts, body, it):
+    """The other natural spelling of the lexicographic order: the first differing pair of the zipped paths decides, otherwise
+    the lengths do (the longer path sorts BEFORE its prefix).  Returns True when this form was found and judged."""
+    finds = []
+    for st in subterms(drop_lv(it.ret)):
+        if is_call(st, ('find', 'find_map')) and len(st[2]) == 2 and st[2][1][0] == 'closure':
+            src = drop_lv(st[2][0])
+            if is_call(src, 'map') and len(src[2]) == 2 and src[2][1][0] == 'closure' and is_call(drop_lv(src[2][0]), 'zip'):
+                finds.append((st, src))
+    if not finds:
+        return False
+    st, mp = finds[0]
+    z = drop_lv(mp[2][0])
+    errs = []
+
+    def walk_side(x):
+        base, kind, clo = iter_source(x)
+        pp = param_path(base)
+        return pp[0] if pp and pp[1] == ('0',) and not clo and not (set(iter_adaptors(x)) & (LOSSY_ADAPTORS | {'rev'})) else None
+    sides = (walk_side(z[2][0]), walk_side(z[2][1])) if len(z[2]) == 2 else (None, None)
+    if set(sides) != {1, 2}:
+        errs.append('the zipped walks are not the whole paths of self and other')
+    # the mapped value: cmp(first, second) of the pair
+    mcb = facts.cb(mp[2][1][1])
+    mr = drop_lv(interp(facts, mcb).ret)
+    orient = None
+    flipped = False
+    while is_call(mr, 'reverse') and len(mr[2]) == 1:
+        flipped = not flipped
+        mr = drop_lv(mr[2][0])
+    if is_call(mr, 'cmp') and len(mr[2]) == 2:
+        a, b = versionless(mr[2][0]), versionless(mr[2][1])
+        if a == ('field', ('param', 2), '0') and b == ('field', ('param', 2), '1'):
+            orient = 'fwd'
+        elif a == ('field', ('param', 2), '1') and b == ('field', ('param', 2), '0'):
+            orient = 'rev'
+    if orient is None:
+        errs.append('the zipped pairs are not compared node with node')
+    elif (sides == (2, 1)) != flipped:
+        orient = 'rev' if orient == 'fwd' else 'fwd'
+    # the search stops exactly at the first non-Equal comparison
+    fcb = facts.cb(st[2][1][1])
+
+    def atom(t):
+        return None
+    res = {}
+    for o in TOTAL:
+        ev_ = Evaluator(facts, bool_atom=lambda t, o=o: ('map', 'x', {True: ('ord', o)}) if versionless(t) in (('param', 2), ('unop', 'Deref', ('param', 2))) else None,
+                        assumption={'x': True})
+        v = ret_value(facts, fcb, ev_)
+        res[o] = v
+    if not (res[EQ] is False and res[LT] is True and res[GT] is True):
+        errs.append('the search does not stop exactly at the first pair that differs (Eq->%s Lt->%s Gt->%s)' % (res[EQ], res[LT], res[GT]))
+    # what is returned: the found ordering as it is (or reversed when the pairs are compared other-with-self), else the length rule
+    alts = [drop_lv(a) for a in phi_alts(drop_lv(it.ret))]
+    found_alt = [a for a in alts if any(x is st or x == st for x in subterms(a))]
+    tie_alt = [a for a in alts if a not in found_alt]
+    for a in found_alt:
+        rev = is_call(a, 'reverse')
+        inner = drop_lv(a[2][0]) if rev else a
+        if not (inner[0] == 'field' and inner[2] == 'Some.0'):
+            errs.append('the first difference is not returned as found')
+        elif (orient == 'fwd') == rev:
+            errs.append('the first differing pair is returned with the wrong orientation')
+    if len(tie_alt) != 1:
+        errs.append('no single tie-break for prefix-related paths')
+    else:
+        t_ = tie_alt[0]
+        rev = False
+        while is_call(t_, 'reverse') and len(t_[2]) == 1:
+            rev = not rev
+            t_ = drop_lv(t_[2][0])
+        ok_t = False
+        if is_call(t_, 'cmp') and len(t_[2]) == 2:
+            def len_side(x):
+                x = drop_lv(x)
+                if is_call(x, 'len') and len(x[2]) == 1:
+                    pp = param_path(x[2][0])
+                    return pp[0] if pp and pp[1] == ('0',) else None
+                return None
+            la, lb = len_side(t_[2][0]), len_side(t_[2][1])
+            # the longer path sorts first: cmp(len(other), len(self)) or its reversed mirror
+            ok_t = ((la, lb) == (2, 1) and not rev) or ((la, lb) == (1, 2) and rev)
+        if not ok_t:
+            errs.append('prefix-related paths are not ordered by reverse length (the longer path must sort before its prefix): %s' % fmt(tie_alt[0], 5))
+    ctx.check(not errs, 'cmp', body, 'first differing pair of the zipped paths, else reverse length (lexicographic, antisymmetric prefix rule)',
+              errs[0] if errs else '')
+    return True
+
+
 @rule('ID-CMP', {
     'C14': 'a non-antisymmetric table gives a<b and b<a for prefix-related identifiers; a wrong node orientation breaks totality',
     'C12': 'the global element order is the identifier order',
@@ -80,6 +170,8 @@ def id_cmp(ctx):
     facts = ctx.facts
     body = ctx.method(IDENT, 'Ord', 'cmp')
     it = interp(facts, body)
+    if _id_cmp_zip_form(ctx, facts, body, it):
+        return
 
     def side_of(t):
         src = None
@@ -223,6 +315,21 @@ def mk_route(ctx):
                 if k in sites:
                     # only the writes about the node being applied (not the orphan replay)
                     sites[k].append(bb)
+        if n in ('retain', 'retain_mut') and len(c.args) == 2 and c.args[0].is_mut_ref and param_path(c.args[0].val) == (1, ('roots',)):
+            # `roots.retain(|r| !node.children.contains(r))`: the children of the node are removed, nothing else
+            for clo, m in closure_bindings(c.term):
+                cb = facts.cb(clo[1])
+
+                def inside(t, m=m):
+                    ts = subst(t, m)
+                    if is_call(ts, ('contains', 'contains_key')) and len(ts[2]) == 2:
+                        pc = param_path(versionless(ts[2][0]))
+                        if pc and pc[0] == 2 and pc[1][-1:] == ('children',) and versionless(ts[2][1])[0] in ('item', 'field'):
+                            return 'child'
+                    return None
+                if closure_value(facts, cb, bool_atom=inside, assumption={'child': True}) is False and \
+                        closure_value(facts, cb, bool_atom=inside, assumption={'child': False}) is True:
+                    sites['roots.remove'].append(bb)
     found = []
     seen = _seen_atom(facts, found)
     gate = _merkle_atoms([])
@@ -260,6 +367,8 @@ def mk_route(ctx):
             if not (is_call(k, 'hash') and versionless(k[2][0]) == ('param', 2)):
                 errs.append('roots.insert does not insert the hash of the applied node')
         for bb in sites['roots.remove']:
+            if call_name(it.calls[bb].term) in ('retain', 'retain_mut'):
+                continue      # the retain form was checked against `children.contains(root)` when it was accepted as a site
             k = versionless(it.calls[bb].args[1].val)
             src = as_item(k)
             if src is None or not whole_iteration_over(src, 2, ('children',)):
